@@ -77,6 +77,7 @@ pub fn gen_config(rng: &mut Rng, o: &BenchOpts) -> Config {
         clock: vec![],
         tolerance: None,
         timeout_set: false,
+        timeout_late: false,
         timeout_at_block: None,
         wake_on_drop: false,
         drop_handles_first: false,
